@@ -108,7 +108,7 @@ Definition flight_ok (m : mux) (f : flight) : Prop :=
        /\ find_route (t_root (m_table m)) (f_path f) (f_method f) ps0 = Some (f_info f, s_params (f_store f)).
 
 Definition Inv (m : mux) : Prop :=
-  register_all (m_routes m) = Some (m_table m)
+  m_table m = register_attempts (m_routes m)
   /\ length (m_prefix m) = 9
   /\ Forall (pooled_ok (m_prefix m)) (m_pool m)
   /\ Forall (flight_ok m) (m_flights m)
@@ -197,10 +197,9 @@ Proof.
   destruct l as [p meth | k choice path meth | k code | k how | i]; cbn [step_gen] in Hs.
   - (* LRegister *)
     destruct (m_flights m) eqn:Ef; [|discriminate].
-    destruct (handle (m_table m) p meth) as [t'|] eqn:Eh; [|discriminate].
     inversion Hs; subst m'; clear Hs. unfold Inv. cbn [m_table m_routes m_prefix m_pool m_flights m_next_id].
     repeat split; auto; try constructor.
-    eapply handle_extends; eauto.
+    rewrite register_attempts_snoc, Hreg. reflexivity.
   - (* LBegin *)
     destruct (find_flight k (m_flights m)) eqn:Ek; [discriminate|].
     set (got := match choice with
@@ -275,14 +274,11 @@ Theorem step_no_panic : forall m l, Inv m -> step m l <> Panic.
 Proof.
   intros m l [Hreg [Hlen [Hpool _]]]. unfold step.
   destruct l as [p meth | k choice path meth | k code | k how | i]; cbn [step_gen].
-  - destruct (m_flights m); [|discriminate]. destruct (handle (m_table m) p meth); discriminate.
+  - destruct (m_flights m); discriminate.
   - destruct (find_flight k (m_flights m)); [discriminate|].
     assert (Hfr : forall s, pooled_ok (m_prefix m) s -> forall x,
               find_route_gen push_append (t_root (m_table m)) path meth (s_params (with_id s x)) <> None).
-    { intros s [H1 [H2 _]] x. cbn [with_id s_params].
-      pose proof (register_all_repr _ _ Hreg) as [[HK [Hwf _]] _].
-      destruct (find_route_spec _ (t_root (m_table m)) path meth (s_params s) HK Hwf H2) as [info [ps' [E _]]].
-      unfold find_route in E. rewrite E. discriminate. }
+    { intros s _ x. cbn [with_id s_params]. apply (find_route_total (t_root (m_table m)) path meth (s_params s)). }
     destruct choice as [i|].
     + destruct (nth_error (m_pool m) i) as [s|] eqn:En; [|discriminate].
       assert (Hs : pooled_ok (m_prefix m) s).
@@ -298,14 +294,40 @@ Proof.
   - destruct (nth_error (m_pool m) i); discriminate.
 Qed.
 
-(** the isolation statement for one request in flight *)
-Theorem flight_isolated : forall m f names, Inv m -> In f (m_flights m) ->
+(** the isolation statement for one request in flight: it reads what it would read on a fresh Mux on which the same
+    registration attempts were made (whatever trie nodes rejected ones left behind) *)
+Theorem flight_isolated_attempts : forall m f names, Inv m -> In f (m_flights m) ->
+  fresh_core_attempts (m_routes m) (f_path f) (f_method f) names = Some (core (observe_flight f names))
+  /\ ob_id (observe_flight f names) = m_prefix m ++ render_id (f_ticket f).
+Proof.
+  intros m f names [Hreg [Hlen [_ [Hfl _]]]] Hin.
+  rewrite Forall_forall in Hfl. destruct (Hfl f Hin) as [Hid [_ [ps0 [Hk [Hv Hfr]]]]].
+  split; [|exact Hid].
+  unfold fresh_core_attempts, serve_http. rewrite <- Hreg.
+  pose proof (find_route_cap_irrelevant (t_root (m_table m)) (f_path f) (f_method f)
+                (fresh_params (t_max_params (m_table m))) ps0) as H.
+  rewrite Hfr in H.
+  destruct (find_route (t_root (m_table m)) (f_path f) (f_method f) (fresh_params (t_max_params (m_table m))))
+    as [[info2 ps2]|]; [|contradiction (H (eq_sym Hk) (eq_sym Hv))].
+  destruct (H (eq_sym Hk) (eq_sym Hv)) as [-> [HK2 HV2]].
+  unfold core, observe_flight, route_param_any_of. cbn [ob_target ob_vals ob_any].
+  f_equal. f_equal; [f_equal|].
+  - apply map_ext. intros name. apply route_param_of_ext; auto.
+  - apply route_param_of_ext; auto.
+Qed.
+
+(** when all registrations so far were accepted, that is the specification's answer and no lookup panics *)
+Theorem flight_isolated : forall m f names t, Inv m -> In f (m_flights m) ->
+  register_all (m_routes m) = Some t ->
   fresh_core (m_routes m) (f_path f) (f_method f) names = Some (core (observe_flight f names))
   /\ ob_id (observe_flight f names) = m_prefix m ++ render_id (f_ticket f)
   /\ Forall (fun v => v <> None) (ob_vals (observe_flight f names))
   /\ ob_any (observe_flight f names) <> None.
 Proof.
-  intros m f names [Hreg [Hlen [_ [Hfl _]]]] Hin.
+  intros m f names t [Hatt [Hlen [_ [Hfl _]]]] Hin Hall.
+  assert (Hreg : register_all (m_routes m) = Some (m_table m)).
+  { rewrite Hatt. rewrite (register_attempts_all _ _ Hall). exact Hall. }
+  clear Hall t.
   rewrite Forall_forall in Hfl. destruct (Hfl f Hin) as [Hid [_ [ps0 [Hk [Hv Hfr]]]]].
   pose proof (fresh_core_of_find _ _ _ _ names ps0 _ _ Hreg Hv Hk Hfr) as Hc.
   split; [exact Hc|]. split; [exact Hid|].
@@ -343,7 +365,7 @@ Theorem step_frame : forall m l m' k, step m l = Ok m' -> label_key l <> Some k 
 Proof.
   intros m l m' k Hs Hne. unfold step in Hs.
   destruct l as [p meth | k0 choice path meth | k0 code | k0 how | i]; cbn [step_gen label_key] in *.
-  - destruct (m_flights m); [|discriminate]. destruct (handle _ _ _); inversion Hs; subst; auto.
+  - destruct (m_flights m); [|discriminate]. inversion Hs; subst; auto.
   - destruct (find_flight k0 (m_flights m)); [discriminate|].
     destruct (match choice with None => _ | Some i => _ end) as [[s pool']|]; [|discriminate].
     destruct (find_route_gen _ _ _ _ _) as [[info ps']|]; [|discriminate].
@@ -405,7 +427,7 @@ Lemma step_next_id_mono : forall m l m', step m l = Ok m' -> (m_next_id m <= m_n
 Proof.
   intros m l m' Hs. unfold step in Hs.
   destruct l as [p meth | k0 choice path meth | k0 code | k0 how | i]; cbn [step_gen] in Hs.
-  - destruct (m_flights m); [|discriminate]. destruct (handle _ _ _); inversion Hs; subst; cbn; lia.
+  - destruct (m_flights m); [|discriminate]. inversion Hs; subst; cbn; lia.
   - destruct (find_flight k0 (m_flights m)); [discriminate|].
     destruct (match choice with None => _ | Some i => _ end) as [[s pool']|]; [|discriminate].
     destruct (find_route_gen _ _ _ _ _) as [[info ps']|]; [|discriminate].
@@ -434,7 +456,7 @@ Proof.
   pose proof (run_next_id_mono _ _ _ Hr) as Hm2.
   assert (Hp : m_prefix m1 = m_prefix m).
   { unfold step in Es. destruct l as [p meth | k0 choice path meth | k0 code | k0 how | i]; cbn [step_gen] in Es.
-    - destruct (m_flights m); [|discriminate]. destruct (handle _ _ _); inversion Es; subst; auto.
+    - destruct (m_flights m); [|discriminate]. inversion Es; subst; auto.
     - destruct (find_flight k0 (m_flights m)); [discriminate|].
       destruct (match choice with None => _ | Some i => _ end) as [[s pool']|]; [|discriminate].
       destruct (find_route_gen _ _ _ _ _) as [[info ps']|]; [|discriminate]. inversion Es; subst; auto.
@@ -486,7 +508,7 @@ Proof.
   - fold (step m l) in Hr. destruct (step m l) as [m1| |] eqn:Es; try discriminate.
     fold (run m1 ls) in Hr. rewrite (IH _ _ Hr). unfold step in Es.
     destruct l as [p meth | k0 choice path meth | k0 code | k0 how | i]; cbn [step_gen registered] in *.
-    + destruct (m_flights m); [|discriminate]. destruct (handle _ _ _); inversion Es; subst. cbn. rewrite <- app_assoc. auto.
+    + destruct (m_flights m); [|discriminate]. inversion Es; subst. cbn. rewrite <- app_assoc. auto.
     + destruct (find_flight k0 (m_flights m)); [discriminate|].
       destruct (match choice with None => _ | Some i => _ end) as [[s pool']|]; [|discriminate].
       destruct (find_route_gen _ _ _ _ _) as [[info ps']|]; [|discriminate]. inversion Es; subst; auto.
@@ -501,7 +523,7 @@ Proof.
   fold (step m0 l) in Hr0. destruct (step m0 l) as [m2| |] eqn:Es; try discriminate.
   fold (run m2 ls) in Hr0. rewrite (IH _ _ Hr0). unfold step in Es.
   destruct l as [p meth | k0 choice path meth | k0 code | k0 how | i]; cbn [step_gen] in Es.
-  - destruct (m_flights m0); [|discriminate]. destruct (handle _ _ _); inversion Es; subst; auto.
+  - destruct (m_flights m0); [|discriminate]. inversion Es; subst; auto.
   - destruct (find_flight k0 (m_flights m0)); [discriminate|].
     destruct (match choice with None => _ | Some i => _ end) as [[s pool']|]; [|discriminate].
     destruct (find_route_gen _ _ _ _ _) as [[info ps']|]; [|discriminate]. inversion Es; subst; auto.
@@ -510,17 +532,32 @@ Proof.
   - destruct (nth_error (m_pool m0) i); inversion Es; subst; auto.
 Qed.
 
-Theorem reachable_isolated : forall prefix ls m f names,
+Theorem reachable_isolated_attempts : forall prefix ls m f names,
   run (new_mux prefix) ls = Ok m -> In f (m_flights m) ->
+  fresh_core_attempts (registered ls) (f_path f) (f_method f) names = Some (core (observe_flight f names))
+  /\ ob_id (observe_flight f names) = fit9 prefix ++ render_id (f_ticket f).
+Proof.
+  intros prefix ls m f names Hr Hin.
+  pose proof (run_preserves_Inv _ _ _ (Inv_new prefix) Hr) as HI.
+  pose proof (run_routes _ _ _ Hr) as Hrt. cbn in Hrt.
+  pose proof (flight_isolated_attempts m f names HI Hin) as H. rewrite Hrt in H.
+  assert (Hp : m_prefix m = fit9 prefix) by (apply (run_prefix _ _ _ Hr)).
+  rewrite Hp in H. exact H.
+Qed.
+
+Theorem reachable_isolated : forall prefix ls m f names t,
+  run (new_mux prefix) ls = Ok m -> In f (m_flights m) ->
+  register_all (registered ls) = Some t ->
   fresh_core (registered ls) (f_path f) (f_method f) names = Some (core (observe_flight f names))
   /\ ob_id (observe_flight f names) = fit9 prefix ++ render_id (f_ticket f)
   /\ Forall (fun v => v <> None) (ob_vals (observe_flight f names))
   /\ ob_any (observe_flight f names) <> None.
 Proof.
-  intros prefix ls m f names Hr Hin.
+  intros prefix ls m f names t Hr Hin Hall.
   pose proof (run_preserves_Inv _ _ _ (Inv_new prefix) Hr) as HI.
   pose proof (run_routes _ _ _ Hr) as Hrt. cbn in Hrt.
-  pose proof (flight_isolated m f names HI Hin) as H. rewrite Hrt in H.
+  rewrite <- Hrt in Hall.
+  pose proof (flight_isolated m f names t HI Hin Hall) as H. rewrite Hrt in H.
   assert (Hp : m_prefix m = fit9 prefix) by (apply (run_prefix _ _ _ Hr)).
   rewrite Hp in H. exact H.
 Qed.
